@@ -48,6 +48,8 @@ type state struct {
 	exprs        map[string]bool // distinct constraint expressions
 	decisions    int             // (file, environment) decisions compared with an observation
 	e2eRuns      int
+	e2eByMode    map[string]int
+	gopath       string
 	e2eExpectErr int
 	apiImports   int
 	stdDirs      map[string]bool
@@ -55,13 +57,46 @@ type state struct {
 	stdFiles     int
 	stdConstr    int
 	oracleSelf   int // generated expressions whose two oracle evaluations were cross-checked
+	stdListed    int
+	samples      map[string][]sample
+}
+
+type sample struct {
+	key string
+	v   map[string]any
+}
+
+// keep records an actual case for the evidence file: at most two per kind, chosen by smallest key
+// so that the choice does not depend on scheduling.
+func (s *state) keep(kind, key string, v map[string]any) {
+	v["kind"], v["case"] = kind, key
+	defer s.lock()()
+	l := append(s.samples[kind], sample{key, v})
+	sort.Slice(l, func(i, j int) bool { return l[i].key < l[j].key })
+	if len(l) > 2 {
+		l = l[:2]
+	}
+	s.samples[kind] = l
+}
+
+func (s *state) flushSamples() {
+	for _, kind := range []string{"e2e", "e2e-all-excluded", "std-import"} {
+		for _, x := range s.samples[kind] {
+			s.c.Sample(x.v)
+		}
+	}
+	for _, kind := range []string{"api-import"} {
+		for _, x := range s.samples[kind] {
+			s.c.Sample(x.v)
+		}
+	}
 }
 
 func (s *state) lock() func() { s.mu.Lock(); return s.mu.Unlock }
 
 // Run is the C18 check.
 func Run(c *core.Ctx) int {
-	s := &state{c: c, classes: map[string]bool{}, exprs: map[string]bool{}, stdDirs: map[string]bool{}}
+	s := &state{c: c, classes: map[string]bool{}, exprs: map[string]bool{}, stdDirs: map[string]bool{}, e2eByMode: map[string]int{}, samples: map[string][]sample{}}
 	npk := c.N(150, 6000)
 	nsets := c.N(3, 5)
 
@@ -83,13 +118,17 @@ func Run(c *core.Ctx) int {
 		}
 		last = time.Now()
 	}
-	// ---- generate ----
+	// ---- generate: all programs live in one GOPATH workspace (src/<name>), each also a module ----
+	gopath := c.Dir("gopath")
+	s.gopath = gopath
 	pkgs := make([]*GenPkg, npk)
 	dirs := make([]string, npk)
 	c.Parallel(npk, func(i int) {
 		g := GenPackage(c.Rand(fmt.Sprint("pkg/", i)), i, nsets)
 		pkgs[i] = g
-		dirs[i] = c.WriteProgram(&core.Program{Name: g.Name, Files: g.Files})
+		dirs[i] = filepath.Join(gopath, "src", g.Name)
+		os.MkdirAll(dirs[i], 0o755)
+		core.WriteFiles(dirs[i], g.Files)
 	})
 	nfiles, nexpr := 0, 0
 	for _, g := range pkgs {
@@ -130,38 +169,62 @@ func Run(c *core.Ctx) int {
 			}
 		}
 	}
-
 	phase("generate")
+
 	// ---- (1) end-to-end: compile + run, registered names vs prediction ----
-	type job struct {
-		pi, ti int
-		goos   string
-		cli    bool
-	}
-	var jobs []job
+	// (a) every (package, tag set) through a fresh build.Session in batch children, GOPATH mode
+	//     (no `go list` processes), plus the deprecated GOOS override as one configuration
+	var jobs []e2eJob
 	for i, g := range pkgs {
 		for t := range g.TagSets {
-			jobs = append(jobs, job{pi: i, ti: t})
+			jobs = append(jobs, e2eJob{pi: i, ti: t, mode: "gopath"})
 		}
-		if i%15 == 7 { // the deprecated GOOS override, as one configuration
-			jobs = append(jobs, job{pi: i, ti: i % len(g.TagSets), goos: "linux"})
+		if i%15 == 7 {
+			jobs = append(jobs, e2eJob{pi: i, ti: i % len(g.TagSets), goos: "linux", mode: "gopath"})
 		}
+	}
+	nch := c.Jobs * 4
+	if m := (len(jobs) + 59) / 60; m > nch {
+		nch = m
+	}
+	chunks := make([][]e2eJob, nch)
+	for k, j := range jobs {
+		// keep the tag sets of one package together
+		chunks[j.pi%nch] = append(chunks[j.pi%nch], j)
+		_ = k
+	}
+	c.Parallel(nch, func(k int) { s.e2eBatch(pkgs, dirs, chunks[k], k) })
+	phase("e2e-gopath-batch")
+
+	// (b) module mode through the harness pipeline (`vp compile`: go list pattern expansion +
+	//     module lookup), and (c) the real CLI
+	var jobs2 []e2eJob
+	nmod := c.N(30, 400)
+	for k := 0; k < nmod && k < npk; k++ {
+		i := (k*53 + 11) % npk
+		jobs2 = append(jobs2, e2eJob{pi: i, ti: (k + 2) % len(pkgs[i].TagSets), mode: "module"})
 	}
 	ncli := c.N(8, 60)
 	cli := <-cliReady
 	if cli != "" {
 		for k := 0; k < ncli && k < npk; k++ {
 			i := (k*37 + 3) % npk
-			jobs = append(jobs, job{pi: i, ti: (k + 1) % len(pkgs[i].TagSets), cli: true})
+			jobs2 = append(jobs2, e2eJob{pi: i, ti: (k + 1) % len(pkgs[i].TagSets), mode: "cli"})
 		}
 	} else {
 		c.Inconclusive("cli-not-built")
 	}
-	c.Parallel(len(jobs), func(k int) {
-		j := jobs[k]
-		s.e2e(pkgs[j.pi], dirs[j.pi], j.ti, j.goos, j.cli, k)
+	c.Parallel(len(jobs2), func(k int) {
+		j := jobs2[k]
+		g := pkgs[j.pi]
+		opt := core.CompileOpt{Tags: g.TagSets[j.ti], Out: fmt.Sprintf("out-m%d.js", k), CLI: j.mode == "cli", Env: []string{"GOPATH=" + gopath}}
+		res := c.CompileJS(dirs[j.pi], opt)
+		if res.TimedOut {
+			c.Inconclusive("compile-timeout")
+			return
+		}
+		s.judge(g, dirs[j.pi], j, res.OK, res.Output, res.JS, k)
 	})
-
 	phase("e2e")
 	// ---- (2a) API level on the generated directories ----
 	s.apiGenerated(pkgs, dirs)
@@ -172,8 +235,13 @@ func Run(c *core.Ctx) int {
 	phase("std-sweep")
 
 	c.Count("e2e_builds", s.e2eRuns)
+	for m, n := range s.e2eByMode {
+		c.Count("e2e_builds_mode_"+m, n)
+	}
 	c.Count("e2e_builds_expected_to_fail", s.e2eExpectErr)
 	c.Count("api_imports_generated_dirs", s.apiImports)
+	s.flushSamples()
+	c.Count("std_dirs_listed", s.stdListed)
 	c.Count("std_dirs_swept", len(s.stdDirs))
 	c.Count("std_imports_compared", s.stdImports)
 	c.Count("std_go_files_decided", s.stdFiles)
@@ -224,13 +292,13 @@ func (s *state) classify(d *GenDir, pred *Prediction) {
 	}
 }
 
-func keyOf(g *GenPkg, ti int, goos string, cli bool) string {
+func keyOf(g *GenPkg, ti int, goos string, mode string) string {
 	k := fmt.Sprintf("%s/tags=%s", g.Name, strings.Join(g.TagSets[ti], ","))
 	if goos != "" {
 		k += "/GOOS=" + goos
 	}
-	if cli {
-		k += "/cli"
+	if mode != "" {
+		k += "/" + mode
 	}
 	return k
 }
@@ -270,7 +338,6 @@ func (s *state) replayFiles(g *GenPkg, extra map[string]string) map[string]strin
 	for k, v := range g.Files {
 		m["src/"+k] = v
 	}
-	m["src/go.mod"] = "module prog\n\ngo 1.20\n"
 	meta, _ := json.MarshalIndent(g.Dirs, "", " ")
 	m["generator-meta.json"] = string(meta)
 	for k, v := range extra {
@@ -292,10 +359,66 @@ func describe(g *GenPkg, names []string) string {
 	return b.String()
 }
 
-// e2e compiles one (package, tag set) and compares the registered names with the prediction.
-func (s *state) e2e(g *GenPkg, dir string, ti int, goos string, cli bool, seq int) {
+type e2eJob struct {
+	pi, ti int
+	goos   string
+	mode   string // gopath | module | cli
+}
+
+// BuildJob / BuildRes are the protocol of the `vp c18-build` child (cmd/vp/sub_c18_build.go).
+type BuildJob struct {
+	ID     string   `json:"id"`
+	Dir    string   `json:"dir"`
+	Path   string   `json:"path"`
+	Tags   []string `json:"tags"`
+	GOOS   string   `json:"goos,omitempty"`
+	Module bool     `json:"module,omitempty"`
+	Out    string   `json:"out"`
+}
+
+type BuildRes struct {
+	ID    string `json:"id"`
+	OK    bool   `json:"ok"`
+	Err   string `json:"err,omitempty"`
+	Panic bool   `json:"panic,omitempty"`
+}
+
+// e2eBatch builds a chunk of (package, tag set) pairs in one child and judges every result.
+func (s *state) e2eBatch(pkgs []*GenPkg, dirs []string, jobs []e2eJob, chunk int) {
+	if len(jobs) == 0 {
+		return
+	}
 	c := s.c
-	tags := g.TagSets[ti]
+	d := c.Dir("e2e")
+	var bj []BuildJob
+	for k, j := range jobs {
+		g := pkgs[j.pi]
+		bj = append(bj, BuildJob{ID: fmt.Sprint(k), Dir: dirs[j.pi], Path: g.Name, Tags: g.TagSets[j.ti], GOOS: j.goos,
+			Out: filepath.Join(d, fmt.Sprintf("out-%d.js", k))})
+	}
+	jf, rf := filepath.Join(d, "jobs.json"), filepath.Join(d, "res.json")
+	b, _ := json.Marshal(bj)
+	os.WriteFile(jf, b, 0o644)
+	r := core.Exec(d, core.BaseEnv("GOPATH="+s.gopath, "GO111MODULE=off", "GOMAXPROCS=4"), 30*time.Minute, "", c.Self, "c18-build", jf, rf)
+	var res []BuildRes
+	rb, err := os.ReadFile(rf)
+	if r.TimedOut || r.Exit != 0 || err != nil || json.Unmarshal(rb, &res) != nil || len(res) != len(jobs) {
+		for range jobs {
+			c.Inconclusive("e2e-batch-child-failed")
+		}
+		fmt.Printf("C18: build child failed (exit %d timeout %v): %s\n", r.Exit, r.TimedOut, firstLines(r.Stderr, 5))
+		return
+	}
+	for k, j := range jobs {
+		s.judge(pkgs[j.pi], dirs[j.pi], j, res[k].OK, res[k].Err, bj[k].Out, chunk*1000+k)
+	}
+}
+
+// judge compares the outcome of one build (and run) with the prediction.
+func (s *state) judge(g *GenPkg, dir string, j e2eJob, ok bool, output string, js string, seq int) {
+	c := s.c
+	tags := g.TagSets[j.ti]
+	goos := j.goos
 	env := UserEnv(tags, goos)
 	preds := make([]*Prediction, len(g.Dirs))
 	for i, d := range g.Dirs {
@@ -307,18 +430,15 @@ func (s *state) e2e(g *GenPkg, dir string, ti int, goos string, cli bool, seq in
 		preds[i] = p
 		s.classify(d, p)
 	}
-	key := "e2e/" + keyOf(g, ti, goos, cli)
-	opt := core.CompileOpt{Tags: tags, Out: fmt.Sprintf("out-%d.js", seq), CLI: cli}
+	key := "e2e/" + keyOf(g, j.ti, goos, j.mode)
+	pre := ""
 	if goos != "" {
-		opt.Env = []string{"GOOS=" + goos}
+		pre = "GOOS=" + goos + " "
 	}
-	res := c.CompileJS(dir, opt)
-	if res.TimedOut {
-		c.Inconclusive("compile-timeout")
-		return
+	if j.mode == "gopath" {
+		pre += "GO111MODULE=off GOPATH=$PWD/gopath "
 	}
-	tagArg := strings.Join(tags, " ")
-	cmd := fmt.Sprintf("cd src && %sgopherjs build --tags %q -o out.js . && node out.js\n", map[bool]string{true: "GOOS=" + goos + " ", false: ""}[goos != ""], tagArg)
+	cmd := fmt.Sprintf("# sources are in src/ (GOPATH mode: move them to gopath/src/%s)\ncd src && %sgopherjs build --tags %q -o out.js . && node out.js\n", g.Name, pre, strings.Join(tags, " "))
 
 	// what must happen
 	mustFailNoGo, mustFail := false, false
@@ -341,46 +461,49 @@ func (s *state) e2e(g *GenPkg, dir string, ti int, goos string, cli bool, seq in
 	}
 	unlock := s.lock()
 	s.e2eRuns++
+	s.e2eByMode[j.mode]++
 	s.decisions += nd
 	if mustFail || mustFailNoGo {
 		s.e2eExpectErr++
 	}
 	unlock()
+	defer func() {
+		os.Remove(js)
+		os.Remove(js + ".map")
+	}()
 
 	if mustFailNoGo || mustFail {
-		if res.OK {
+		if ok {
 			c.Violate(key, fmt.Sprintf("%s: build succeeded although %s (tags %v)", key, why, tags),
 				s.replayFiles(g, map[string]string{"cmd.sh": cmd}))
 			return
 		}
-		if mustFailNoGo && !noGoRe.MatchString(res.Output) {
-			c.Violate(key, fmt.Sprintf("%s: %s, but the build failed with a different error (tags %v):\n%s", key, why, tags, firstLines(res.Output, 12)),
-				s.replayFiles(g, map[string]string{"cmd.sh": cmd, "compiler-output.txt": res.Output}))
+		if mustFailNoGo && !noGoRe.MatchString(output) {
+			c.Violate(key, fmt.Sprintf("%s: %s, but the build failed with a different error (tags %v):\n%s", key, why, tags, firstLines(output, 12)),
+				s.replayFiles(g, map[string]string{"cmd.sh": cmd, "compiler-output.txt": output}))
 			return
 		}
-		if mustFail && noGoRe.MatchString(res.Output) {
-			c.Violate(key, fmt.Sprintf("%s: the build claims that all Go files are excluded, but the documented rules select some (tags %v):\n%s", key, tags, firstLines(res.Output, 12)),
-				s.replayFiles(g, map[string]string{"cmd.sh": cmd, "compiler-output.txt": res.Output}))
+		if mustFail && noGoRe.MatchString(output) {
+			c.Violate(key, fmt.Sprintf("%s: the build claims that all Go files are excluded, but the documented rules select some (tags %v):\n%s", key, tags, firstLines(output, 12)),
+				s.replayFiles(g, map[string]string{"cmd.sh": cmd, "compiler-output.txt": output}))
 		}
-		if mustFailNoGo && seq%7 == 0 {
-			c.Sample(map[string]any{"kind": "e2e-all-excluded", "case": key, "error": firstLines(strings.TrimSpace(res.Output), 1)})
+		if mustFailNoGo {
+			s.keep("e2e-all-excluded", key, map[string]any{"error": firstLines(strings.TrimSpace(output), 1)})
 		}
 		return
 	}
-	if !res.OK && strings.Contains(res.Output, s.gorootSrc()) {
+	if !ok && (strings.Contains(output, s.gorootSrc()) || strings.Contains(output, s.gorootSrcReal())) {
 		// a user tag that also switches files of the standard library (e.g. -tags linux) broke a
 		// standard package: outside this property
 		c.Inconclusive("user-tag-broke-a-standard-package")
 		return
 	}
-	if !res.OK {
-		c.Violate(key, fmt.Sprintf("%s: build failed although the documented rules select a buildable file set (tags %v):\n%s", key, tags, firstLines(res.Output, 12)),
-			s.replayFiles(g, map[string]string{"cmd.sh": cmd, "compiler-output.txt": res.Output}))
+	if !ok {
+		c.Violate(key, fmt.Sprintf("%s: build failed although the documented rules select a buildable file set (tags %v):\n%s", key, tags, firstLines(output, 12)),
+			s.replayFiles(g, map[string]string{"cmd.sh": cmd, "compiler-output.txt": output}))
 		return
 	}
-	run := c.RunNode(res.JS, core.NodeOpt{Timeout: 2 * time.Minute})
-	os.Remove(res.JS)
-	os.Remove(res.JS + ".map")
+	run := c.RunNode(js, core.NodeOpt{Timeout: 2 * time.Minute})
 	if run.TimedOut {
 		c.Inconclusive("node-timeout")
 		return
@@ -448,9 +571,9 @@ func (s *state) e2e(g *GenPkg, dir string, ti int, goos string, cli bool, seq in
 			s.replayFiles(g, map[string]string{"cmd.sh": cmd, "observed.txt": run.Stdout, "predicted.txt": "go: " + strings.Join(predGo, " ") + "\nincjs: " + strings.Join(predJS, " ") + "\n"}))
 		return
 	}
-	if seq%97 == 0 {
-		c.Sample(map[string]any{"kind": "e2e", "case": key, "files_in_dirs": nd, "registered": len(obsGo), "incjs_ran": len(obsJS),
-			"first_registered": first(obsGo, 4)})
+	if len(obsGo) >= 4 && len(obsJS) >= 1 {
+		s.keep("e2e", key, map[string]any{"files_in_dirs": nd, "registered_at_run_time": len(obsGo), "incjs_ran": obsJS,
+			"some_decisions": someDecisions(g, preds[0], dir)})
 	}
 }
 
@@ -463,6 +586,34 @@ func (s *state) gorootSrc() string {
 		gorootSrcDir = filepath.Join(strings.TrimSpace(r.Stdout), "src") + string(filepath.Separator)
 	})
 	return gorootSrcDir
+}
+
+func (s *state) gorootSrcReal() string {
+	p := strings.TrimSuffix(s.gorootSrc(), string(filepath.Separator))
+	if real, err := filepath.EvalSymlinks(p); err == nil {
+		return real + string(filepath.Separator)
+	}
+	return s.gorootSrc()
+}
+
+// someDecisions lists a few actual (file, constraint, decision) triples of the main package.
+func someDecisions(g *GenPkg, p *Prediction, dir string) []string {
+	sel := setOf(p.Go)
+	var out []string
+	nsel, nexcl := 0, 0
+	for _, f := range g.Dirs[0].Files {
+		if f.Kind != "go" || f.Expr == "" || f.Late {
+			continue
+		}
+		if sel[f.Name] && nsel < 2 {
+			nsel++
+			out = append(out, fmt.Sprintf("%s [//go:build %s] selected", f.Name, f.Expr))
+		} else if !sel[f.Name] && nexcl < 2 {
+			nexcl++
+			out = append(out, fmt.Sprintf("%s [//go:build %s] excluded", f.Name, f.Expr))
+		}
+	}
+	return out
 }
 
 func first(l []string, n int) []string {
@@ -485,7 +636,7 @@ func (s *state) runImport(name string, chunks [][]ImportJob) map[string][]Import
 		jf, rf := filepath.Join(d, "jobs.json"), filepath.Join(d, "res.json")
 		b, _ := json.Marshal(chunks[i])
 		os.WriteFile(jf, b, 0o644)
-		r := core.Exec(d, core.BaseEnv(), 20*time.Minute, "", c.Self, "c18-import", jf, rf)
+		r := core.Exec(d, core.BaseEnv("GOMAXPROCS=4"), 20*time.Minute, "", c.Self, "c18-import", jf, rf)
 		if r.TimedOut {
 			c.Inconclusive(name + "-child-timeout")
 			return
@@ -559,14 +710,14 @@ func (s *state) apiGenerated(pkgs []*GenPkg, dirs []string) {
 					s.classify(d, pred)
 				}
 			}
-			key := fmt.Sprintf("api/%s/%s", keyOf(rf.g, rf.ti, rf.goos, false), r.Path)
+			key := fmt.Sprintf("api/%s/%s", keyOf(rf.g, rf.ti, rf.goos, ""), r.Path)
 			s.apiImports++
 			s.decisions += pred.Considered + len(pred.JS)
 			if msg := compareImport(r, pred, true); msg != "" {
 				c.Violate(key, fmt.Sprintf("%s: build.NewBuildContext(\"\", %v).Import(%q, dir, 0) GOOS=%q:\n%s", key, rf.g.TagSets[rf.ti], r.Path, env.GOOS, msg),
 					s.replayFiles(rf.g, map[string]string{"observed.json": toJSON(r), "predicted.json": toJSON(pred)}))
-			} else if s.apiImports%173 == 0 {
-				c.Sample(map[string]any{"kind": "api-import", "case": key, "GoFiles": len(r.Go), "TestGoFiles": len(r.Test) + len(r.XTest), "JSFiles": r.JS, "IgnoredGoFiles": len(r.Ignored), "err": r.Err})
+			} else if len(r.JS) > 0 && len(r.Test)+len(r.XTest) > 0 {
+				s.keep("api-import", key, map[string]any{"GoFiles": len(r.Go), "TestGoFiles": len(r.Test) + len(r.XTest), "JSFiles": r.JS, "IgnoredGoFiles": len(r.Ignored), "err": r.Err})
 			}
 		}
 	}
@@ -658,6 +809,7 @@ func (s *state) stdSweep() {
 		return nil
 	})
 	sort.Strings(paths)
+	s.stdListed = len(paths)
 	// configurations: no tags; random tag sets; GOOS=linux (std must stay js/wasm)
 	type cfg struct {
 		tags []string
@@ -752,8 +904,8 @@ func (s *state) stdSweep() {
 				c.Violate(key, fmt.Sprintf("%s: standard-library package must be selected as GOOS=js GOARCH=wasm, release tags ≤ go1.%d, tags %v:\n%s", key, SupportedRelease, cf.tags, msg),
 					map[string]string{"observed.json": toJSON(r), "predicted.json": toJSON(it.pred),
 						"cmd.txt": fmt.Sprintf("GOOS=%s build.NewBuildContext(\"\", %q).Import(%q, projectDir, 0)\n", cf.goos, cf.tags, it.path)})
-			} else if (s.stdImports%811 == 0) && it.pred.Constrained > 0 {
-				c.Sample(map[string]any{"kind": "std-import", "case": key, "GoFiles": len(r.Go), "TestGoFiles": len(r.Test), "XTestGoFiles": len(r.XTest), "go_files_in_dir": it.pred.Considered, "with_constraint": it.pred.Constrained})
+			} else if it.pred.Constrained > 8 && len(cf.tags) > 0 {
+				s.keep("std-import", key, map[string]any{"GoFiles": len(r.Go), "TestGoFiles": len(r.Test), "XTestGoFiles": len(r.XTest), "go_files_in_dir": it.pred.Considered, "with_constraint": it.pred.Constrained})
 			}
 		}
 	}
